@@ -209,6 +209,10 @@ static Json gen_c13(uint64_t seed, long i, std::vector<Format*> const& fmts)
         else if (pk < 84 && f->has_any) o.set("p", "any");
         else { o.set("p", r.chance(2, 3) ? "rci" : "rcv"); o.set("type", r.pick(f->convert_types)); }
         if (!o.has("p")) o.set("p", "dev");
+        std::string pn = o.str("p");
+        bool reg = r.chance(1, 2);
+        int rx = (int)r.below(20), ry = (int)r.below(20), rw = (int)r.below(20), rh = (int)r.below(20);
+        if (reg && (pn == "any" || pn == "rci" || pn == "rcv")) { o.set("region", 1); o.set("x", rx); o.set("y", ry); o.set("w", rw); o.set("h", rh); }
         ops.push(o);
     }
     p.set("ops", ops);
